@@ -76,3 +76,19 @@ func withCols(cols int, f func()) int {
 	f()
 	return got
 }
+
+// probePty: can a terminal width be imposed in this environment?
+func probePty() bool {
+	got := withCols(37, func() {})
+	return got == 37 && !ptyBroken
+}
+
+var ptyOK = true
+
+// effCols: the width a help operation will really run under.
+func effCols(want int) int {
+	if ptyOK {
+		return want
+	}
+	return currentCols()
+}
